@@ -6,6 +6,8 @@ def text_edit(old, new):
         return src.replace(old, new, 1) if old in src else None
     return edit
 MUTANTS = [
+    Mutant('deps_early_break', 'src/pharmpy/model/statements.py', text_edit("        for j in range(i - 1, -1, -1):\n            statement = self[j]\n            if isinstance(statement, Assignment):\n                if statement.symbol in symbs:", "        assigned = {s.symbol for s in self[:i] if isinstance(s, Assignment)}\n        for j in range(i - 1, -1, -1):\n            if symbs.isdisjoint(assigned):\n                break\n            statement = self[j]\n            if isinstance(statement, Assignment):\n                if statement.symbol in symbs:"), 'D9', 'scan stops before the ODE system'),
+    Mutant('depgraph_selfref_only', 'src/pharmpy/modeling/expressions.py', text_edit("        if previous_def is not None:\n", "        if previous_def is not None and symbol in fs:\n"), 'D10', 'redefinition only handled for self references'),
     Mutant('deps_unconditional', 'src/pharmpy/model/statements.py', text_edit("                if statement.symbol in symbs:\n                    symbs = (symbs - {statement.symbol}) | statement.rhs_symbols", "                if True:\n                    symbs = (symbs - {statement.symbol}) | statement.rhs_symbols"), 'D9', 'definitions applied although not wanted'),
     Mutant('deps_gen_before_kill', 'src/pharmpy/model/statements.py', text_edit("symbs = (symbs - {statement.symbol}) | statement.rhs_symbols", "symbs = (symbs | statement.rhs_symbols) - {statement.symbol}"), 'D8', 'self-referencing statement loses its symbol'),
     Mutant('additional_not_closed', 'src/pharmpy/model/statements.py', text_edit("            additional |= set(nx.dfs_preorder_nodes(graph, add))", "            additional |= set(graph.successors(add))"), 'D6', 'one level only'),
